@@ -102,6 +102,8 @@ let run_case (line : string) : string =
     let i k = int_of_string (Stdlib.List.nth toks k) in
     let t k = Stdlib.List.nth toks k in
     if Stdlib.List.hd toks = "WB" then wire_op (n (i 1)) (C04_util.ns_of_hex (t 2)) else
+    if Stdlib.List.hd toks = "MR" then rib_metrics false else
+    if Stdlib.List.hd toks = "MRS" then rib_metrics true else
     let upd off = URoutes (n (i off), plist (i off) (t (off + 2)), n (i (off + 1)), n (i (off + 3)), plist (i (off + 3)) (t (off + 4))) in
     let op : wop = match Stdlib.List.hd toks with
       | "C" -> WConnect (n (i 1))
@@ -169,6 +171,19 @@ let run_case (line : string) : string =
            let c = if !unk then "?" else (if !k2 then "K2" else "") ^ (if !k3 then "K3" else "") in
            emit mt st c
          end)
+  (* MR / MRS: the RIB unit's own counters after the updates applied so far (RibModel.ribm_run over the history of updates the
+     RIB got); MRS: ||| what the descriptions of the metrics ask for (RibModel.rmet_spec), class KR where the two differ (finding
+     C15-6). MR holds the code against the model only: a case made of MR reads cannot be shrunk into the finding, so a changed
+     bump is reported as such.
+     Third field: num_insert_retries follows the store's contention count, not modelled: 0 without concurrent writers. *)
+  and rib_metrics with_spec =
+    let int_of_z = function BinNums.Z0 -> 0 | BinNums.Zpos p -> int_of_pos p | BinNums.Zneg p -> - (int_of_pos p) in
+    let show (m : RibModel.rmet) =
+      Printf.sprintf "r:%d,%d,0,%d,%d,%d,%d,%d" (int_of_n m.RibModel.rm_unique) (int_of_n m.RibModel.rm_items) (int_of_n m.RibModel.rm_hard)
+        (int_of_z m.RibModel.rm_announced) (int_of_n m.RibModel.rm_modified) (int_of_n m.RibModel.rm_withdrawn) (int_of_n m.RibModel.rm_wd_noann) in
+    let (_, m) = RibModel.ribm_run !hist in
+    let a = show m and b = show (RibModel.rmet_spec !hist) in
+    if with_spec then emit a b (if a = b then "." else "KR") else emit a a "."
   (* WB k <hex>: octets arriving on router k's connection - cut into frames as io.rs bmp_read does, each frame through
      the codec (BmpWire.decode) and the state machine's reading of it (BmpWireAbs.abstract). One token for the whole op:
      the tokens of the frames joined by '~'; a refused frame is `unparsable/<phase>`; `short` = the length field is below
